@@ -160,6 +160,12 @@ func (p *planner) next(r *runner, g *lib.Rand) *Step {
 	}
 	switch g.Pick(p.prof.weights...) {
 	case 0:
+		if !small && g.Chance(2) {
+			// deleting an absent key far above the array part (must not grow it)
+			k := tv.Int(int64(defaultMai - 1 - g.Intn(1000000)))
+			how := []string{"lua.index", "go.RawSet", "go.RawSetInt", "lua.rawset", "L.SetTable"}[g.Intn(5)]
+			return &Step{Op: "set", How: how, K: vp(k), V: vp(tv.Nil())}
+		}
 		k := key()
 		how := setHows[g.Intn(len(setHows))]
 		for tries := 0; !r.setHowOK(how, k); tries++ {
